@@ -31,7 +31,9 @@ META = dict(
          "Partitions, WritablePartitions, Leader, Replicas, InSyncReplicas, OfflineReplicas, Brokers and Controller are "
          "read for every topic/partition and TLC compares them with the fold of the served responses. In the concurrent "
          "family 4 reader goroutines hammer the read APIs while one refresher runs; each read must equal the view before "
-         "or after that refresh. Concurrent refreshers (spec/MetadataRefreshers.tla, every interleaving model-checked): 2 and 3 "
+         "or after that refresh. A full refresh is asked for with no argument, with a nil slice and with an empty non-nil slice; the "
+         "responder answers the raw request bytes the way Kafka does (v1+: null topics array = all topics, empty array = none; "
+         "v0: empty = all). Concurrent refreshers (spec/MetadataRefreshers.tla, every interleaving model-checked): 2 and 3 "
          "goroutines call RefreshMetadata at once with Metadata.Retry.Max 0 and 1 over every failing subset of the candidates; "
          "the failure of the head candidate is released only when all callers have a request in flight on it; every caller "
          "must succeed when a live seed or registered broker answers.",
@@ -45,7 +47,7 @@ META = dict(
 
 CLAUSES = ["partitions_sorted_exact", "writable_exact", "leader_exact_or_unavailable", "replicas_isr_offline_exact",
            "topic_error_class", "brokers_reconciled", "read_is_before_or_after", "refresh_succeeds_if_any_answers",
-           "no_hang_no_panic"]
+           "full_refresh_asks_for_all_topics", "no_hang_no_panic"]
 
 
 def _cases(r):
@@ -200,7 +202,7 @@ def run(ctx):
             e = events.get((v["trace"], v["index"]), {})
             h = heads.get(v["trace"], {})
             v["features"] = {"family": h.get("fam"), "version": h.get("ver"), "case": h.get("idx"), "step": e.get("k"),
-                             "mutation": e.get("mut"), "request": e.get("req"), "down": e.get("down"),
+                             "mutation": e.get("mut"), "request": e.get("req"), "asked_how": e.get("how"), "down": e.get("down"),
                              "modes": e.get("modes"), "result": e.get("result"), "what": e.get("what"),
                              "callers": e.get("nref"), "retry_max": e.get("retry"), "steered": e.get("steer") or "",
                              # cause level: some caller got ErrNotConnected from a candidate that answers
